@@ -451,6 +451,10 @@ func runC04(t *testing.T, cases []map[string]interface{}, ev *vEvents) {
 		if ck := r.Cookie(authCookieName); ck != nil && ck.Value != "" {
 			side = true
 		}
+		if !honoured && (consumer == "tokenendpoint" || consumer == "userinfo") && w.signedTokens(r) > 0 {
+			// whatever the status line says: a refusal that hands out tokens signed by this server has had an effect
+			side = true
+		}
 		if consumer == "cookieupgrade" && !honoured {
 			// the request was admitted by its client certificate and the one-time password was the user's own: that it is
 			// spent is the doing of those two, not of the cookie under test
